@@ -420,17 +420,89 @@ class PddlGen:
                 ["init"] + init, ["actions"] + actions, ["goals"] + goals, ["traj"] + traj, ["metrics"] + metrics]
 
 
-def gen_problem(rng, tries=30, **kw):
-    """a generated problem that the real model builder accepts: (sexp, Problem, Ctx)"""
+def flat_args(e, kind_pred):
+    out = []
+    for a in e.args:
+        if kind_pred(a):
+            out.extend(flat_args(a, kind_pred))
+        else:
+            out.append(a)
+    return out
+
+
+def has_dup_operands(e):
+    """some + or * (nested applications of the same operator flattened) has two equal operands"""
+    for pred in (lambda x: x.is_plus(), lambda x: x.is_times()):
+        if pred(e):
+            fa = flat_args(e, pred)
+            if len(set(fa)) != len(fa):
+                return True
+    return any(has_dup_operands(a) for a in e.args)
+
+
+def all_expressions(P):
+    for a in P.actions:
+        for c in a.preconditions:
+            yield "pre", c
+        for e in a.effects:
+            yield "cond", e.condition
+            yield "value", e.value
+    for g in P.goals:
+        yield "goal", g
+    for m in P.quality_metrics:
+        if m.is_minimize_action_costs():
+            for a in P.actions:
+                c = m.get_action_cost(a)
+                if c is not None:
+                    yield "cost", c
+        elif m.is_minimize_expression_on_final_state() or m.is_maximize_expression_on_final_state():
+            yield "metric", m.expression
+
+
+def outside_fragment(P):
+    """reading decisions that keep the generated problems inside the property's fragment (see ASSUMPTIONS of C18);
+    returns the name of the excluded feature or None"""
+    from unified_planning.model import InstantaneousAction
+    for where, e in all_expressions(P):
+        s = e.simplify()
+        if where == "goal" and s.is_false():
+            return "goal-false"
+        if where == "metric" and s.is_constant():
+            return "metric-constant"
+        if has_dup_operands(s) or has_dup_operands(e):
+            return "dup-operands"
+    for a in P.actions:
+        # effects that become unconditional once their condition is simplified must not be statically conflicting
+        # (the library rejects such actions when they are rebuilt by a reader, in whatever order)
+        effs = [(e, e.condition.simplify()) for e in a.effects]
+        effs = [(e, c) for e, c in effs if not c.is_false()]
+        depth = lambda ec: (1 if ec[0].is_forall() else 0) + (0 if ec[1].is_true() else 1)
+        for order in (effs, sorted(effs, key=depth), list(reversed(effs))):
+            b = InstantaneousAction("probe", dict((p.name, p.type) for p in a.parameters), a.environment)
+            try:
+                for e, c in order:
+                    fn = b.add_effect if e.is_assignment() else b.add_increase_effect if e.is_increase() else b.add_decrease_effect
+                    fn(e.fluent, e.value.simplify(), c, forall=e.forall)
+            except Exception:
+                return "static-conflict"
+    return None
+
+
+def gen_problem(rng, tries=60, **kw):
+    """a generated problem that the real model builder accepts and that lies inside the fragment: (sexp, Problem, Ctx)"""
     last = None
     for _ in range(tries):
         g = PddlGen(rng, **kw)
         ps = g.problem()
         try:
             P, ctx = upp.build_problem(ps)
-            return ps, P, ctx
         except Exception as e:      # conflicting effects, bounds, ... : structurally rejected by the library
             last = e
+            continue
+        why = outside_fragment(P)
+        if why is None:
+            return ps, P, ctx
+        last = why
     raise RuntimeError(f"generator could not build a problem: {last!r}")
 
 
